@@ -165,6 +165,13 @@ Layout(t) ==
 
 Range(s) == {s[i] : i \in 1..Len(s)}
 
+(* option families: all option tags of a base tag that some layout uses *)
+Siblings == {
+  {"50", "50A", "50C", "50F", "50G", "50H", "50K", "50L"}, {"52A", "52B", "52C", "52D"}, {"53A", "53B", "53D"},
+  {"54A", "54B", "54D"}, {"55A", "55B", "55D"}, {"56A", "56C", "56D"}, {"57A", "57B", "57C", "57D"}, {"58A", "58D"},
+  {"59", "59A", "59F"}, {"32A", "32B", "32C", "32D"}, {"60F", "60M"}, {"62F", "62M"} }
+SiblingsOf(tag) == UNION {S \in Siblings : tag \in S} \ {tag}
+
 (* every tag that can occur somewhere in a message of the type *)
 Alphabet(t) == UNION {Range(Layout(t)[i].tags) : i \in 1..Len(Layout(t))}
 
